@@ -2,6 +2,7 @@ package checks
 
 import (
 	"fmt"
+	"math"
 	"testing"
 
 	"pgregory.net/rapid"
@@ -14,7 +15,7 @@ import (
 	"verif/harness/sm"
 )
 
-const ruleC08 = "collections of 0-40 documents whose sort fields x, y, xy take values from a per-case palette of at most 6 mixed-type values including nil, plus absent (ties guaranteed); index on the sort field, the filter field, both or none, created before or after the data; bbolt and badger. Queries: 0-3 sort options with directions from {-7,-1,0,1,5}, Sort() without options, criteria present or absent, skip/limit from {negative, 0, 1, 2, size-1, size, size+3}. Oracle: the result must be the window [skip, skip+limit) of some correctly sorted order of the matching documents (tie-aware rule of DESIGN.md section 4, both admitted readings of absent-vs-nil), ids distinct, documents equal to the model; unsorted windows by cardinality, distinctness and membership. An evaluation is one checked query; non-trivial when the sort keys of the matching documents contain a tie, two type ranks or an absent field, and the window cuts inside the result; distinct = distinct (query, contents, index set)."
+const ruleC08 = "collections of 0-40 documents whose sort fields x, y, xy take values from a per-case palette of at most 6 mixed-type values including nil, plus absent (ties guaranteed); index on the sort field, the filter field, both or none, created before or after the data; bbolt and badger. Queries: 0-3 sort options with directions from {-7,-1,0,1,5}, Sort() without options, criteria present or absent, skip/limit from {negative, MinInt, 0, 1, 2, size/2, size-1, size, size+3, MaxInt-3, MaxInt}. Oracle: the result must be the window [skip, skip+limit) of some correctly sorted order of the matching documents (tie-aware rule of DESIGN.md section 4, both admitted readings of absent-vs-nil), ids distinct, documents equal to the model; unsorted windows by cardinality, distinctness and membership. An evaluation is one checked query; non-trivial when the sort keys of the matching documents contain a tie, two type ranks or an absent field, and the window cuts inside the result; distinct = distinct (query, contents, index set)."
 
 func c08Session(backend string) (*sm.Session, error) { return sm.NewSession("C08", "c08", backend) }
 
@@ -103,11 +104,11 @@ func TestC08(t *testing.T) {
 				}
 			}
 			if rapid.IntRange(0, 2).Draw(rt, "hasskip") != 0 {
-				v := rapid.SampledFrom([]int{-3, 0, 1, 2, n - 1, n, n + 3, n / 2}).Draw(rt, "skip")
+				v := rapid.SampledFrom([]int{-3, 0, 1, 2, n - 1, n, n + 3, n / 2, math.MaxInt, math.MinInt}).Draw(rt, "skip")
 				q.Skip = &v
 			}
 			if rapid.IntRange(0, 2).Draw(rt, "haslimit") != 0 {
-				v := rapid.SampledFrom([]int{-1, 0, 1, 2, n, n + 3, n / 2}).Draw(rt, "limit")
+				v := rapid.SampledFrom([]int{-1, 0, 1, 2, n, n + 3, n / 2, math.MaxInt, math.MaxInt - 3, math.MinInt}).Draw(rt, "limit")
 				q.Limit = &v
 			}
 			kind := "find"
